@@ -55,10 +55,13 @@ type Proof struct {
 }
 
 func (p *Proof) IsValid(public Public) bool {
-	if p == nil {
+	if p == nil || p.group == nil || p.Commitment == nil || public.Prover == nil || public.Aux == nil {
 		return false
 	}
-	if p.Gamma == nil || p.Gamma.IsZero() {
+	if curve.IsNilScalar(p.Gamma) || p.Gamma.IsZero() {
+		return false
+	}
+	if !arith.IsValidNatModN(public.Aux.N(), p.S, p.T) {
 		return false
 	}
 	if !public.Prover.ValidateCiphertexts(p.A) {
@@ -112,6 +115,11 @@ func NewProof(group curve.Curve, hash *hash.Hash, public Public, private Private
 
 func (p *Proof) Verify(hash *hash.Hash, public Public) bool {
 	if !p.IsValid(public) {
+		return false
+	}
+
+	// Z1 is re-encrypted below: it must be a plaintext of the prover's key (EncWithNonce panics otherwise)
+	if !arith.IsInPlaintextRange(public.Prover.N(), p.Z1) {
 		return false
 	}
 
